@@ -614,6 +614,163 @@ const SNIPPETS: [(Rule, &str); 30] = [
     (Rule::UnknownMethod, "shout(\"s\".push(1))"),
 ];
 
+/// Static types of the typing table with three spellings each: literal, variable declared with a
+/// literal of that type, parenthesised literal.
+const TT_TYPES: [(&str, [&str; 3]); 5] = [
+    ("number", ["1", "tvn", "(2)"]),
+    ("string", ["\"s\"", "tvs", "(\"t\")"]),
+    ("boolean", ["true", "tvb", "(false)"]),
+    ("null", ["null", "tvz", "(null)"]),
+    ("array", ["[1]", "tva", "([2])"]),
+];
+/// Spellings whose type is only known at run time (array element; a parameter needs a wrapper).
+const TT_DYN: [&str; 2] = ["tva[0]", "tdp"];
+const TT_DECLS: &str = "make tvn get 1\nmake tvs get \"s\"\nmake tvb get true\nmake tvz get null\nmake tva get [1]\n";
+const TT_BINOPS: [&str; 10] = ["add", "minus", "times", "divide", "mod", "na", "pass", "small pass", "and", "or"];
+
+/// Documented verdict for `<l> op <r>` with static operand types (index into TT_TYPES, None =
+/// dynamically typed). Some(true) = a static type error, Some(false) = must be accepted, None =
+/// not asserted (unspecified zones U6: string `add` bool/null/array, U10: ordering of booleans or
+/// with null; and whatever only the run-time type of a dynamic operand can decide).
+fn tt_binary_verdict(op: &str, l: Option<usize>, r: Option<usize>) -> Option<bool> {
+    const N: usize = 0;
+    const S: usize = 1;
+    const B: usize = 2;
+    const Z: usize = 3;
+    const A: usize = 4;
+    match (l, r) {
+        (Some(l), Some(r)) => match op {
+            "add" => match (l, r) {
+                (N, N) | (S, S) | (S, N) | (N, S) => Some(false),
+                (S, _) | (_, S) => None,
+                _ => Some(true),
+            },
+            "minus" | "times" | "divide" | "mod" => Some(!(l == N && r == N)),
+            "na" => Some(!((l == r && l != A) || l == Z || r == Z)),
+            "pass" | "small pass" => match (l, r) {
+                (N, N) | (S, S) => Some(false),
+                (Z, _) | (_, Z) | (B, B) => None,
+                _ => Some(true),
+            },
+            _ => Some(!(matches!(l, B | Z) && matches!(r, B | Z))),
+        },
+        // one operand is dynamically typed: the other one must still be possible for the operator
+        (Some(t), None) | (None, Some(t)) => match op {
+            "add" => match t {
+                N | S => Some(false),
+                _ => None,
+            },
+            "minus" | "times" | "divide" | "mod" => Some(t != N),
+            "na" => Some(false),
+            "pass" | "small pass" => match t {
+                N | S => Some(false),
+                _ => None,
+            },
+            _ => Some(!matches!(t, B | Z)),
+        },
+        (None, None) => Some(false),
+    }
+}
+
+/// Bounded-exhaustive operator typing table: every binary operator over every pair of operand
+/// spellings, unary operators, conditions and indexing, in every context.
+fn typing_table(ctx: &mut ShardCtx) {
+    let mut cases: Vec<(String, Option<bool>, String)> = Vec::new(); // (expression statement, verdict, class)
+    let mut operands: Vec<(Option<usize>, &str)> = Vec::new();
+    for (ti, (_, spell)) in TT_TYPES.iter().enumerate() {
+        for s in spell {
+            operands.push((Some(ti), s));
+        }
+    }
+    for d in &TT_DYN {
+        operands.push((None, d));
+    }
+    let tname = |t: Option<usize>| t.map_or("dynamic", |i| TT_TYPES[i].0);
+    for op in &TT_BINOPS {
+        for (lt, l) in &operands {
+            for (rt, r) in &operands {
+                cases.push((
+                    format!("shout({l} {op} {r})"),
+                    tt_binary_verdict(op, *lt, *rt),
+                    format!("{} {op} {}", tname(*lt), tname(*rt)),
+                ));
+            }
+        }
+    }
+    for (t, e) in &operands {
+        let not_bad = t.map(|t| !matches!(t, 2 | 3));
+        let neg_bad = t.map(|t| t != 0);
+        cases.push((format!("shout(not {e})"), Some(not_bad.unwrap_or(false)), format!("not {}", tname(*t))));
+        cases.push((format!("shout(minus {e})"), Some(neg_bad.unwrap_or(false)), format!("minus {}", tname(*t))));
+        // conditions take a boolean; null is documented as falsy
+        cases.push((format!("if to say ({e}) start\nend"), Some(not_bad.unwrap_or(false)), format!("if {}", tname(*t))));
+        cases.push((format!("jasi ({e}) start\ncomot\nend"), Some(not_bad.unwrap_or(false)), format!("jasi {}", tname(*t))));
+        for (it, i) in &operands {
+            let bad = t.is_some_and(|t| t != 4) || it.is_some_and(|i| i != 0);
+            cases.push((format!("shout({e}[{i}])"), Some(bad), format!("{}[{}]", tname(*t), tname(*it))));
+        }
+    }
+    let mut idx = 0u32;
+    for (cname, head, foot) in &CONTEXTS {
+        for (stmt, verdict, class) in &cases {
+            idx += 1;
+            if idx % ctx.of != ctx.shard {
+                continue;
+            }
+            // `tdp` is a parameter of a wrapper function around declarations and statement
+            let src = if stmt.contains("tdp") {
+                format!("{head}do tdf(tdp) start\n{TT_DECLS}{stmt}\nend\ntdf(1){foot}\n")
+            } else {
+                format!("{head}{TT_DECLS}{stmt}{foot}\n")
+            };
+            ctx.eval();
+            let Some(bad) = *verdict else {
+                ctx.discard("typing table: unspecified zone (not asserted)");
+                continue;
+            };
+            let obs = match front_end(&src) {
+                Ok(o) => o,
+                Err(c) => {
+                    ctx.handle("typing-table", Outcome::Fail(Failure {
+                        sig: format!("front-end-crash|{c}"),
+                        what: format!("front end crashed ({c})\n{src}"),
+                        input: json!({"raw_source": src, "rule": if bad { Some("type-error") } else { None }}),
+                    }));
+                    continue;
+                }
+            };
+            ctx.nontrivial(hash_str(&src));
+            let errors: Vec<&Diag> = obs.front.iter().filter(|d| d.is_error()).collect();
+            let input = json!({"raw_source": src, "rule": if bad { Some("type-error") } else { None }});
+            if bad {
+                ctx.class("typing table: statically wrong operand types");
+                if errors.is_empty() {
+                    ctx.handle("typing-table", Outcome::Fail(Failure {
+                        sig: format!("invalid-accepted|type-error|{class}"),
+                        what: format!("`{stmt}` ({class}) is a static type error but the program was accepted (context {cname})\n{src}"),
+                        input,
+                    }));
+                } else if !errors.iter().any(|d| category_matches(Rule::TypeError, d)) {
+                    ctx.handle("typing-table", Outcome::Fail(Failure {
+                        sig: format!("wrong-category|type-error|{}|{class}", errors[0].message),
+                        what: format!("`{stmt}` ({class}) in context {cname}; diagnostics: {}\n{src}", errors.iter().map(|d| d.text()).collect::<Vec<_>>().join(" || ")),
+                        input,
+                    }));
+                }
+            } else {
+                ctx.class("typing table: well-typed operands");
+                if let Some(e) = errors.first() {
+                    ctx.handle("typing-table", Outcome::Fail(Failure {
+                        sig: format!("valid-rejected|{}|{class}", e.message),
+                        what: format!("`{stmt}` ({class}) is well typed but was rejected in context {cname}: {}\n{src}", e.text()),
+                        input,
+                    }));
+                }
+            }
+        }
+    }
+}
+
 fn grid(ctx: &mut ShardCtx) {
     let mut idx = 0u32;
     let mut run = |ctx: &mut ShardCtx, rule: Option<Rule>, cname: &str, src: String| {
@@ -721,6 +878,7 @@ impl Check for C09 {
 
     fn shard(&self, ctx: &mut ShardCtx) {
         grid(ctx);
+        typing_table(ctx);
         let n_valid = ctx.tier.pick(5_000, 50_000);
         let n_inj = ctx.tier.pick(14_000, 120_000);
         for profile in ["general", "scope"] {
